@@ -90,6 +90,8 @@ m("C08", "operators/tee_map.py", "        subscriptions.append(connectable.conne
 m("C08", "operators/tee_map.py", "            elif combine is True:\n                queue[i] = x\n                has_next[i] = True\n                res = tuple(queue)\n                observer.on_next(res)", "            elif combine is True:\n                queue[i] = x\n                has_next[i] = True\n                if all(has_next):\n                    res = tuple(queue)\n                    observer.on_next(res)", "fire", ["AG-3"])
 m("C08", "operators/tee_map.py", "        return _process_many(\n            *[arg(connectable) for arg in args],", "        return _process_many(\n            *[arg(source) for arg in args],", "fire", ["TM-2"])
 m("C08", "operators/tee_map.py", "                if i == n-1:\n                    observer.on_next(x)", "                if n - 1 == i:\n                    observer.on_next(x)", "silent")
+m("C08", "operators/tee_map.py", "append_count = (x.key[0]+1) * n - len(queue)", "append_count = x.key[0] * n - len(queue)", "fire", ["TM-5"])
+m("C08", "operators/tee_map.py", "append_count = (x.key[0]+1) * n - len(queue)", "append_count = n * (1 + x.key[0]) - len(has_next)", "silent")
 # ---------------------------------------------------------------- C09
 m("C09", "operators/scan.py", "                            value = seed() if callable(seed) else copy.deepcopy(seed)\n                        acc = accumulator(value, i.item)", "                            value = seed() if callable(seed) else copy.copy(seed)\n                        acc = accumulator(value, i.item)", "fire", ["SD-1"])
 m("C09", "operators/scan.py", "                            value = seed() if callable(seed) else copy.deepcopy(seed)\n                        acc = accumulator(value, i.item)", "                            value = seed() if callable(seed) else seed\n                        acc = accumulator(value, i.item)", "fire", ["SD-1"])
